@@ -40,6 +40,10 @@ static void emit_rt(const F::Factors & sp, size_t id) {
     auto f = F::toFactors(sp, id);
     size_t back = F::toIndex(sp, f);
     Line l; l << "C14" << "rt"; l.nats(sp) << id << "|"; l.nats(f) << back; l.emit();
+    // the out-parameter overload writing into a buffer that still holds an earlier, larger conversion (how FlattenedModel uses it)
+    F::Factors buf = F::toFactors(sp, F::factorSpace(sp) - 1);
+    F::toFactors(sp, id, &buf);
+    Line l2; l2 << "C14" << "rt"; l2.nats(sp) << id << "|"; l2.nats(buf) << F::toIndex(sp, buf); l2.emit();
 }
 
 static void emit_enum(const F::Factors & sp, const F::PartialKeys & keys, int mode, size_t skipFactor) {
@@ -809,6 +813,17 @@ static void eq_case(Rng & rng, const std::string & tier, long sub) {
             if (single) e = tbl[0][a];      // one group spanning all agents: literally the flat arm table
             v.push_back(e);
         }
+        // the same arms again from the last to the first, and in a scrambled order: the object converts the arm index into a buffer
+        // it keeps between calls, so the answer must not depend on which arm was pulled before
+        { const size_t nA = F::factorSpace(A);
+          for (size_t k = 0; k < 2 * nA; ++k) {
+              size_t a = k < nA ? nA - 1 - k : rng.below(nA);
+              u.push_back(flatb.sampleR(a));
+              auto fa = F::toFactors(A, a); double e = 0;
+              for (size_t g = 0; g < groups.size(); ++g) e += tbl[g][F::toIndexPartial(groups[g], A, fa)];
+              if (single) e = tbl[0][a];
+              v.push_back(e);
+          } }
         eq_line("Bandit::FlattenedModel", single ? "single_group_differs_from_flat" : "differs_from_sum_of_local_arms", "exact", u, v);
         ::printf("#stat eq_model 1\n");
         break; }
